@@ -34,7 +34,17 @@ def huge_count() -> st.SearchStrategy:
 
 
 def alignment() -> st.SearchStrategy:
-    return st.one_of(st.sampled_from([1, 8, 8, 8, 16, 32, 64]), st.integers(1, 64))
+    return st.one_of(
+        st.sampled_from([1, 8, 8, 8, 16, 32, 64]),
+        st.integers(1, 64),
+        st.integers(1, 64),
+        # "any alignment >= 1": powers of two of any size and their neighbours (where float arithmetic stops telling them apart), and
+        # large values of no particular shape
+        st.one_of(
+            st.builds(lambda e, off: max(1, (1 << e) + off), st.integers(3, 66), st.integers(-3, 3)),
+            st.sampled_from([2**31 - 1, 2**53 - 1, 2**53 + 1, 2**63 - 1, 2**63, 2**64 - 1, 2**64, 10**18, 3 * 2**60, 65, 100, 1000]),
+        ),
+    )
 
 
 def trees(max_leaves: int = 8, huge: bool = False) -> st.SearchStrategy:
